@@ -25,7 +25,7 @@ PROPERTY = 'C06'
 TECHNIQUE = 'symbolic execution of the real SuperNet cost path on z3-real coefficients/temperature/noise; equality with the from-scratch weighted mix, range and exported-network agreement as unsat queries'
 FUNCTIONS_ENCODED = ['SuperNetCombiner.get_cost/forward/sample_alpha_sm/sample_alpha_gs', 'SuperNet.get_cost/_get_single_cost/_single_cost_fn_map/__init__', 'link_combiners_to_branches',
                      'plinio.cost.params / ops (registered functions)', 'SuperNet.export (hard-selection oracle)']
-BOUNDS = {'quick': 'S(n,kind) n in {2,3,4}, kinds conv/seq/mix, 1-2 blocks, block used twice; metrics params (shared) and ops (per invocation) as a dictionary; soft, hard and Gumbel(train) sampling; full_cost on/off; temperature symbolic in [0.05,20]',
+BOUNDS = {'quick': 'S(n,kind) n in {2,3,4}, kinds conv/seq/mix, 1-2 blocks, block used twice; metrics params (shared) and ops (per invocation) as a dictionary; soft, hard and Gumbel(train) sampling; full_cost on/off; temperature symbolic in [0.05,20]; Gumbel blocks with hard selection evaluated in eval mode (cost == metric of the exported network)',
           'thorough': 'n up to 6, all kinds, 1..3 blocks, single-spec variants'}
 OUTSIDE = ['blocks invoked twice at different resolutions', 'float32 rounding', 'user-defined cost specifications']
 ASSUMPTIONS = ['softmax: arbitrary order-preserving map into the open simplex; Gumbel noise arbitrary', 'branch costs measured by numel / forward hooks on the unconverted model']
